@@ -6,8 +6,8 @@ import sys
 
 VERIF = os.path.dirname(os.path.dirname(os.path.abspath(__file__)))
 ALL = ["C%02d" % i for i in range(1, 21)]
-# harnesses that passed unchanged-tree sweeps and sensitivity testing; everything else is listed under not_applicable
-READY = ["C04", "C05", "C06", "C16"]
+sys.path.insert(0, os.path.dirname(os.path.abspath(__file__)))
+from ready import READY  # noqa: E402
 
 
 def load(pid):
